@@ -190,6 +190,7 @@ class Analysis:
         self.blind = []
         self.set_attrs = {}
         self._fam_cache = {}
+        self.eff_tags = {}
         self.TOP = self.node("T", "<top>")
 
     def family_set_attrs(self, c):
@@ -218,9 +219,11 @@ class Analysis:
             return
         self.edges.add((src, dst, cond or self.TOP, tuple(sorted(set(lits)))))
 
-    def eff(self, node, kind, lits, where):
+    def eff(self, node, kind, lits, where, tag=""):
         assert kind in EFFS
         self.effs.add((node, kind, tuple(sorted(set(lits))), where))
+        if tag:
+            self.eff_tags.setdefault((node, kind), set()).add(tag)
 
     # ---- loading ----
     def load(self, name):
@@ -1276,6 +1279,7 @@ def analyze(repo):
             A.edge(f.did, f.fid)
             # calls inside f that forward f's own random_state: callee twin reachable from f's twin
             forward_rs(A, V, f, sc)
+    alias_pass(A, V)
     # --- class nodes
     for c in A.classes.values():
         for b in c.bases:
@@ -1340,6 +1344,311 @@ def annotation_is_set(a):
 
 def _has_call(e):
     return any(isinstance(x, ast.Call) for x in ast.walk(e))
+
+
+# ---------------------------------------------------------------------------------------------------------
+# aliasing pass: run-time mutation of module-level objects reached through aliases / parameters
+# ---------------------------------------------------------------------------------------------------------
+ALIAS_GETTERS = {"get", "setdefault", "pop", "values", "items", "keys"}
+STORE_MUTATORS = {"append", "extend", "insert", "update", "add", "setdefault", "appendleft", "__setitem__"}
+
+
+class TaintFn:
+    """flow-insensitive, per function: which local names may refer to an object handed in through a parameter
+    ('p', name) or to a module-level variable ('g', qualified name).  Two levels: 'a' = the name IS (a nested part
+    of) that object; 'h' = the name is a fresh container that HOLDS references to (parts of) it.  Rules:
+      <a|h>[k], <a|h>.get(..)/.pop(..)/.items()/.values(), iteration over <a|h>      -> 'a'
+      [..<a>..], {k: <a>}, comprehension yielding <a>, list()/tuple()/sorted() of it -> 'h'
+      X[k] = <a|h>, X.append(<a|h>), X.update(<a|h>)   (X local)                     -> X gets 'h'
+    A subscript store / mutating method call / augmented attribute on an expression with an 'a' source is a
+    mutation of that source; on a mere holder it is not."""
+
+    def __init__(self, A, V, f, sc):
+        self.A, self.V, self.f, self.sc = A, V, f, sc
+        self.t = {}
+        a = f.node.args
+        for x in a.posonlyargs + a.args + a.kwonlyargs:
+            if x.arg not in ("self", "cls"):
+                self.t[x.arg] = {("p", x.arg, "a")}
+        if a.kwarg:
+            self.t[a.kwarg.arg] = {("p", a.kwarg.arg, "a")}
+        self.mut = {}     # (kind, name) -> [(site text, expression tag)]
+        self.calls = []
+
+    @staticmethod
+    def lvl(srcs, level):
+        return set((k, n, level) for (k, n, _) in srcs)
+
+    def src(self, e):
+        if e is None:
+            return set()
+        if isinstance(e, ast.Name):
+            if e.id in self.t:
+                return set(self.t[e.id])
+            if e.id in self.sc.locals:
+                return set()
+            s = self.V.lookup(self.sc, e.id)
+            if s[0] == "global":
+                return {("g", self.A.nodes[s[1] - 1][1], "a")}
+            return set()
+        if isinstance(e, ast.Starred):
+            return self.src(e.value)
+        if isinstance(e, ast.Subscript):
+            return self.lvl(self.src(e.value), "a")
+        if isinstance(e, ast.Attribute):
+            base, parts = self.V.chain(e)
+            if isinstance(base, ast.Name) and base.id not in self.t and base.id not in self.sc.locals:
+                s = self.V.lookup(self.sc, base.id)
+                if s[0] == "mod":
+                    cur = s
+                    for p_ in parts:
+                        cur = attr_of_sym(self.A, cur, p_) if cur else None
+                        if cur is not None and cur[0] == "global":
+                            return {("g", self.A.nodes[cur[1] - 1][1], "a")}
+                    return set()
+            if isinstance(base, ast.Name) and base.id in ("self", "cls"):
+                return set()
+            return self.lvl(self.src(e.value), "a")
+        if isinstance(e, ast.Call):
+            f = e.func
+            if isinstance(f, ast.Attribute) and f.attr in ALIAS_GETTERS:
+                return self.lvl(self.src(f.value), "a")
+            if isinstance(f, ast.Name) and f.id not in self.sc.locals:
+                if f.id in ("enumerate", "zip", "reversed", "iter", "next"):
+                    out = set()
+                    for a in e.args:
+                        out |= self.src(a)
+                    return out
+                if f.id in ("sorted", "list", "tuple", "dict", "set", "frozenset"):
+                    out = set()
+                    for a in e.args:       # shallow copy: a new container holding the same member objects
+                        out |= self.src(a)
+                    return self.lvl(out, "h")
+            return set()
+        if isinstance(e, ast.IfExp):
+            return self.src(e.body) | self.src(e.orelse)
+        if isinstance(e, ast.BoolOp):
+            out = set()
+            for v in e.values:
+                out |= self.src(v)
+            return out
+        if isinstance(e, (ast.Tuple, ast.List, ast.Set)):
+            out = set()
+            for v in e.elts:
+                out |= self.src(v)
+            return self.lvl(out, "h")
+        if isinstance(e, ast.Dict):
+            out = set()
+            for v in e.values:
+                out |= self.src(v)
+            return self.lvl(out, "h")
+        if isinstance(e, (ast.ListComp, ast.SetComp, ast.GeneratorExp, ast.DictComp)):
+            saved = {k: set(v) for k, v in self.t.items()}
+            for g in e.generators:
+                self.bind(g.target, self.lvl(self.src(g.iter), "a"))
+            out = self.src(e.value) if isinstance(e, ast.DictComp) else self.src(e.elt)
+            self.t = saved
+            return self.lvl(out, "h")
+        if isinstance(e, ast.NamedExpr):
+            return self.src(e.value)
+        return set()
+
+    def bind(self, target, sources):
+        if not sources:
+            return False
+        ch = False
+        for nm in _target_names(target):
+            cur = self.t.setdefault(nm, set())
+            if not sources <= cur:
+                cur |= sources
+                ch = True
+        return ch
+
+    def root_name(self, e):
+        while isinstance(e, (ast.Subscript, ast.Attribute)):
+            e = e.value
+        return e
+
+    def run(self):
+        nodes = list(ast.walk(self.f.node))
+        for _ in range(4):
+            ch = False
+            for n in nodes:
+                if isinstance(n, ast.Assign):
+                    s_ = self.src(n.value)
+                    for t in n.targets:
+                        if isinstance(t, (ast.Name, ast.Tuple, ast.List)):
+                            if isinstance(t, ast.Name):
+                                ch |= self.bind(t, s_)
+                            else:   # unpacking: the parts
+                                ch |= self.bind(t, self.lvl(s_, "a"))
+                        elif isinstance(t, ast.Subscript) and s_:
+                            r = self.root_name(t)
+                            if isinstance(r, ast.Name) and r.id in self.sc.locals:
+                                ch |= self.bind(r, self.lvl(s_, "h"))
+                elif isinstance(n, ast.AnnAssign) and n.value is not None and isinstance(n.target, ast.Name):
+                    ch |= self.bind(n.target, self.src(n.value))
+                elif isinstance(n, (ast.For, ast.AsyncFor)):
+                    ch |= self.bind(n.target, self.lvl(self.src(n.iter), "a"))
+                elif isinstance(n, (ast.With, ast.AsyncWith)):
+                    for it in n.items:
+                        if it.optional_vars is not None:
+                            ch |= self.bind(it.optional_vars, self.src(it.context_expr))
+                elif isinstance(n, ast.Call) and isinstance(n.func, ast.Attribute) and n.func.attr in STORE_MUTATORS:
+                    r = self.root_name(n.func.value)
+                    if isinstance(r, ast.Name) and r.id in self.sc.locals:
+                        s_ = set()
+                        for a in list(n.args) + [k.value for k in n.keywords]:
+                            s_ |= self.src(a)
+                        ch |= self.bind(r, self.lvl(s_, "h"))
+            if not ch:
+                break
+        rel = os.path.relpath(self.f.mod.path, self.A.repo)
+        for n in nodes:
+            if isinstance(n, (ast.Assign, ast.AugAssign, ast.AnnAssign, ast.Delete)):
+                tl = n.targets if isinstance(n, (ast.Assign, ast.Delete)) else [n.target]
+                for t in tl:
+                    if isinstance(t, ast.Subscript):
+                        self.note_mut(t.value, n, rel, "[...] = ...")
+                    elif isinstance(t, ast.Attribute) and isinstance(n, ast.AugAssign):
+                        self.note_mut(t.value, n, rel, ".%s augmented" % t.attr)
+            elif isinstance(n, ast.Call) and isinstance(n.func, ast.Attribute) and n.func.attr in MUTATORS:
+                self.note_mut(n.func.value, n, rel, ".%s()" % n.func.attr)
+            if isinstance(n, ast.Call):
+                self.note_call(n, rel)
+        return self
+
+    def note_mut(self, obj, n, rel, how):
+        for (k, nm, lv) in self.src(obj):
+            if lv == "a":
+                tag = "%s%s" % (ast.unparse(obj)[:50], how)
+                self.mut.setdefault((k, nm), []).append(("%s:%d %s" % (rel, n.lineno, tag), tag))
+
+    def note_call(self, n, rel):
+        args = [(i, self.src(a)) for i, a in enumerate(n.args) if not isinstance(a, ast.Starred)]
+        args += [(k.arg, self.src(k.value)) for k in n.keywords if k.arg is not None]
+        args = [(k, set((a, b) for (a, b, lv) in s_)) for k, s_ in args]     # a holder passed on exposes its members
+        args = [(k, s_) for k, s_ in args if s_]
+        if not args:
+            return
+        callees, skip = [], 0
+        f = n.func
+        A = self.A
+        if isinstance(f, ast.Name):
+            s = self.V.lookup(self.sc, f.id)
+            if s[0] == "func":
+                callees = list(s[1])
+            elif s[0] == "class":
+                skip = 1
+                for k in s[1].mro():
+                    if k.methods.get("__init__"):
+                        callees = list(k.methods["__init__"])
+                        break
+        elif isinstance(f, ast.Attribute):
+            base, parts = self.V.chain(f)
+            if isinstance(base, ast.Name) and base.id in ("self", "cls") and len(parts) == 1 and self.f.cls is not None:
+                skip = 1
+                fam = set(k.qual for k in self.f.cls.mro())
+                for (c, g) in A.methods_by_name.get(parts[0], []):
+                    if c.qual in fam or any(k.qual == self.f.cls.qual for k in c.mro()):
+                        callees.append(g)
+            elif isinstance(base, ast.Call) and isinstance(base.func, ast.Name) and base.func.id == "super" \
+                    and self.f.cls is not None and len(parts) == 1:
+                skip = 1
+                for k in self.f.cls.mro()[1:]:
+                    callees += k.methods.get(parts[0], [])
+            elif isinstance(base, ast.Name) and base.id not in self.sc.locals:
+                s = self.V.lookup(self.sc, base.id)
+                if s[0] in ("mod", "class"):
+                    cur = s
+                    for p_ in parts:
+                        cur = attr_of_sym(A, cur, p_) if cur else None
+                    if cur is not None and cur[0] == "func":
+                        callees = list(cur[1])
+                        skip = 0          # mod.f(..) / C.m(obj, ..): explicit receiver
+                    elif cur is not None and cur[0] == "class":
+                        skip = 1
+                        for k in cur[1].mro():
+                            if k.methods.get("__init__"):
+                                callees = list(k.methods["__init__"])
+                                break
+        if callees:
+            self.calls.append((n.lineno, callees, skip, args, "%s:%d %s(...)" % (rel, n.lineno, ast.unparse(f)[:50])))
+
+
+def bound_param(g, skip, key):
+    a = g.node.args
+    pos = [x.arg for x in a.posonlyargs + a.args]
+    if is_static(g) and skip:
+        skip = 0
+    if isinstance(key, int):
+        i = key + skip
+        if i < len(pos):
+            return pos[i]
+        return a.vararg.arg if a.vararg else None
+    if key in pos or key in [x.arg for x in a.kwonlyargs]:
+        return key
+    return a.kwarg.arg if a.kwarg else None
+
+
+def alias_pass(A, V):
+    """emits ModuleGlobalWrite for (a) mutations of a module-level object through a local alias and (b) calls that
+    hand a module-level object to a function that (transitively, through resolved direct calls) mutates that
+    parameter.  The allow-list name of such a site carries the callee, the parameter and the mutating expressions
+    (not line numbers), so that a DIFFERENT mutation in the callee is not covered by an old allow-list entry."""
+    T_ = {}
+    for f in A.funcs.values():
+        locs, gdecl = function_locals(f.node)
+        sc = Scope(A, f.mod, f.fid, f.cls, f, locs, {})
+        sc.globals_decl = gdecl
+        for n in ast.walk(f.node):      # function-local imports
+            if isinstance(n, (ast.Import, ast.ImportFrom)):
+                for k, v in import_bindings(A, f.mod, n).items():
+                    sc.local_syms[k] = v
+        T_[f.qual] = TaintFn(A, V, f, sc).run()
+    # mutp[q][param] = set of (site text, tag)
+    mutp = {q: {nm: set(v) for (k, nm), v in t.mut.items() if k == "p"} for q, t in T_.items()}
+    changed, rounds = True, 0
+    while changed and rounds < 6:
+        changed = False
+        rounds += 1
+        for q, t in T_.items():
+            for (ln, callees, skip, args, text) in t.calls:
+                for g in callees:
+                    for key, srcs in args:
+                        bp = bound_param(g, skip, key)
+                        if bp is None or not mutp.get(g.qual, {}).get(bp):
+                            continue
+                        short = g.qual.rsplit(".", 2)[-1] if g.cls is None else ".".join(g.qual.rsplit(".", 2)[-2:])
+                        add = set(("%s -> %s" % (text, w), "%s(%s): %s" % (short, bp, tg.split(": ")[-1]))
+                                  for (w, tg) in mutp[g.qual][bp] if w.count("->") < 3)
+                        for (k, nm) in srcs:
+                            if k == "p":
+                                cur = mutp[q].setdefault(nm, set())
+                                if not add <= cur:
+                                    cur |= add
+                                    changed = True
+    for q, t in T_.items():
+        f = A.funcs[q]
+        for (k, nm), sites in t.mut.items():
+            if k == "g":
+                for (w, tg) in sites:
+                    A.eff(f.fid, "ModuleGlobalWrite", (), "%s (alias of module-level %s)" % (w, nm), tag=tg)
+        for (ln, callees, skip, args, text) in t.calls:
+            for g in callees:
+                for key, srcs in args:
+                    bp = bound_param(g, skip, key)
+                    if bp is None or not mutp.get(g.qual, {}).get(bp):
+                        continue
+                    for (k, nm) in srcs:
+                        if k == "g":
+                            short = g.qual.rsplit(".", 1)[-1] if g.cls is None else ".".join(g.qual.rsplit(".", 2)[-2:])
+                            for (w, tg) in sorted(mutp[g.qual][bp]):
+                                A.eff(f.fid, "ModuleGlobalWrite", (),
+                                      "%s passes module-level %s as parameter %s, which the callee mutates: %s" % (
+                                          text, nm, bp, w[:200]),
+                                      tag="%s(%s): %s" % (short, bp, tg.split(": ")[-1]))
+    A.stats["param_mutating_functions"] = sum(1 for q in mutp if any(mutp[q].values()))
 
 
 def forward_rs(A, V, f, sc):
@@ -1485,6 +1794,10 @@ def emit(A, out_path, sidecar_path=None):
     nsites = {}
     for (nd, kind, lits), ws in merged.items():
         nsites[(nd, kind)] = nsites.get((nd, kind), 0) + len(ws)
+    # alias-pass sites additionally carry what is mutated (callee(parameter): expression), see alias_pass
+    for key in list(nsites):
+        tags = A.eff_tags.get(key)
+        nsites[key] = "%d%s" % (nsites[key], (" " + " ; ".join(sorted(tags)).replace('"', "'")) if tags else "")
     used_lits = set(l for e in edges for l in e[3]) | set(l for e in effs for l in e[2])
     L = []
     L.append("(* GENERATED by harness/translate_effects.py from the current working tree of the repository.")
@@ -1534,7 +1847,7 @@ def emit(A, out_path, sidecar_path=None):
     rows = []
     for i, (nd, kind, lits, where) in enumerate(effs):
         rows.append(" (%d%%positive, %s, %s%%positive, \"%s\")%s (* %s *)" % (
-            nd, kind, plist(lits), "%s/%d" % (A.nodes[nd - 1][1].replace('"', "'"), nsites[(nd, kind)]),
+            nd, kind, plist(lits), "%s/%s" % (A.nodes[nd - 1][1].replace('"', "'"), nsites[(nd, kind)]),
             ";" if i < len(effs) - 1 else "",
             where.replace("*)", "* )").replace("(*", "( *").replace('"', "'")))
     L.append("\n".join(rows))
@@ -1567,7 +1880,7 @@ def emit(A, out_path, sidecar_path=None):
     if sidecar_path:
         side = dict(
             nodes=[[k, n] for (k, n) in A.nodes],
-            effs=[[nd, kind, list(l), "%s/%d" % (A.nodes[nd - 1][1], nsites[(nd, kind)]), w] for (nd, kind, l, w) in effs],
+            effs=[[nd, kind, list(l), "%s/%s" % (A.nodes[nd - 1][1], nsites[(nd, kind)]), w] for (nd, kind, l, w) in effs],
             configs={c: dict(roots=roots[c], off=offs[c],
                              reach=sorted(reach(edges, roots[c], offs[c]))) for c in cfgs},
             # file, first line (decorators included), last line, node id: to map executed code objects to nodes
